@@ -2,13 +2,17 @@
 //      transforms mutually inverse within 1 unit; Lagrange-domain add / multiply-add / clear / constants commute.
 // One process per (integer class, B) so that an abort inside a back-end is attributed to its cell.
 #include "vh.hpp"
+#include "heap_phase.hpp"
 VH_MAIN_GLOBALS
 using namespace vh;
 
 static Rng rng;
 static const int N = 1024;
-static const char *icls_name[] = {"random", "allmax", "alternate", "spike", "sparse"};
-static const char *tcls_name[] = {"random", "allmax", "alternate", "spikes"};
+static const char *icls_name[] = {"random", "allmax", "alternate", "spike", "sparse", "square-wave", "tone"};
+static const char *tcls_name[] = {"random", "allmax", "alternate", "spikes", "square-wave", "tone"};
+// narrow-band inputs: all the energy of an operand at one frequency of the negacyclic transform (and its odd harmonics for the
+// square waves), at full amplitude; the torus operand of the same case uses the same frequency so that the product does too
+static int cur_period = 4, cur_freq = 1, cur_shift = 0;
 
 static void fill_int(int32_t *a, int cls, int64_t B) {
     switch (cls) {
@@ -17,6 +21,10 @@ static void fill_int(int32_t *a, int cls, int64_t B) {
         case 2: for (int i = 0; i < N; i++) a[i] = (int32_t) ((i & 1) ? -B : B); break;
         case 3: for (int i = 0; i < N; i++) a[i] = 0; a[rng.below(N)] = (int32_t) (rng.coin() ? B : -B); break;
         case 4: for (int i = 0; i < N; i++) a[i] = rng.below(2) ? (int32_t) B : 0; break;   // binary key pattern scaled by B
+        case 5: { static int turn = 0; cur_period = 2 << (turn++ % 10); } cur_shift = (int) rng.below(cur_period);      // +,..,+,-,..,- with period 2,4,..,1024
+                for (int i = 0; i < N; i++) a[i] = (int32_t) ((((i + cur_shift) % cur_period) < cur_period / 2) ? B : -B); break;
+        case 6: cur_freq = 2 * (int) rng.below(N) + 1; cur_shift = (int) rng.below(2 * N);     // B cos(pi f (i+s)/N), f odd: a single frequency
+                for (int i = 0; i < N; i++) a[i] = (int32_t) llround((double) B * cos(M_PI * cur_freq * (double) (i + cur_shift) / N)); break;
     }
 }
 static void fill_torus(int32_t *b, int cls) {
@@ -25,6 +33,8 @@ static void fill_torus(int32_t *b, int cls) {
         case 1: for (int i = 0; i < N; i++) b[i] = INT32_MAX; break;
         case 2: for (int i = 0; i < N; i++) b[i] = (i & 1) ? INT32_MIN : INT32_MAX; break;
         case 3: for (int i = 0; i < N; i++) b[i] = 0; for (int t = 0; t < 3; t++) b[rng.below(N)] = rng.coin() ? INT32_MIN : INT32_MAX; break;
+        case 4: { int sh = (int) rng.below(cur_period); for (int i = 0; i < N; i++) b[i] = (((i + sh) % cur_period) < cur_period / 2) ? INT32_MAX : INT32_MIN; break; }
+        case 5: { int sh = (int) rng.below(2 * N); for (int i = 0; i < N; i++) b[i] = (int32_t) llround(2147483647.0 * cos(M_PI * cur_freq * (double) (i + sh) / N)); break; }
     }
 }
 
@@ -52,14 +62,17 @@ int main(int argc, char **argv) {
     const char *tag = args.s("tag", "").c_str();
     std::string tags = args.s("tag", "");
     int64_t B = 1ll << lgB;
+    if (icls == 5 && reps < 10) reps = 10;      // every period 2,4,..,1024 against every torus class
     int64_t tolP = lgB <= 9 ? 2 : 2 * (B >> 9);
     rng.reseed(seed * 1000003ull + icls * 31 + lgB);
+    // where the allocator places the polynomials and the library's temporaries modulo 32 (16 is all that is guaranteed)
+    { int hp = args.i("heapphase", -1); set_heap_phase(hp); out.cell(hp < 0 ? "heap:as-malloc-places-it" : hp == 0 ? "heap:blocks-at-0-mod-32" : hp == 16 ? "heap:blocks-at-16-mod-32" : "heap:blocks-spread-over-distant-regions"); }
     IntPolynomial *a = new_IntPolynomial(N);
     TorusPolynomial *b = new_TorusPolynomial(N), *r = new_TorusPolynomial(N), *r0 = new_TorusPolynomial(N);
     LagrangeHalfCPolynomial *la = new_LagrangeHalfCPolynomial(N), *lb = new_LagrangeHalfCPolynomial(N), *lc = new_LagrangeHalfCPolynomial(N);
     std::vector<U> exact, want(N);
     char cell[128];
-    for (int tcls = 0; tcls < 4; tcls++) {
+    for (int tcls = 0; tcls < 6; tcls++) {
         for (int rep = 0; rep < reps; rep++) {
             fill_int(a->coefs, icls, B); fill_torus(b->coefsT, tcls);
             ref_negacyclic(exact, a->coefs, b->coefsT, N);
